@@ -306,6 +306,8 @@ var (
 	lC2z = qlit("2020-01-02T10:00:00Z")      // = lC2, RFC3339 Z
 	lC2o = qlit("2020-01-02T12:00:00+02:00") // = lC2, +02:00 offset
 	lP   = qlit("2019-12-31")                // before everything
+	lC2h = qlit("2020-01-02 10:30:00")       // half past, exactly a row (start not aligned to the hour)
+	lC5  = qlit("2020-01-03 12:20:00")       // end inside an hour, 5 min after the last 2020 row
 	// literals relative to the run (concrete text differs per run, symbol is stable)
 	lR1, lR1z, lR2 lit
 	// NOW()-relative expressions
@@ -332,7 +334,7 @@ func buildRelLits() {
 
 // canonical orders (also the order in which the minimiser tries replacement atoms)
 func timeLits(full bool) []lit {
-	l := []lit{lC2, lC1, lC3, lC4, lC2m, lC2z, lC2o, lP, lR1, lR1z, lR2, nN1, nN3, nP1, nP5}
+	l := []lit{lC2, lC1, lC3, lC4, lC2m, lC2z, lC2o, lP, lC2h, lC5, lR1, lR1z, lR2, nN1, nN3, nP1, nP5}
 	if full {
 		l = append(l, nC72, nNw, nNm)
 	}
@@ -374,15 +376,17 @@ func alphabet0(full bool) []*atom {
 func alphabet1(full bool) []*atom {
 	a := []*atom{
 		{Col: "time", Op: ">=", L1: lC2}, {Col: "time", Op: "<", L1: lC3}, {Col: "time", Op: "<=", L1: lC2},
-		{Col: "time", Op: ">", L1: lC2m}, {Col: "time", Op: ">=", L1: lR1}, {Col: "time", Op: "<", L1: lR2},
+		{Col: "time", Op: ">=", L1: lC1}, {Col: "time", Op: ">=", L1: lC2h}, {Col: "time", Op: "<", L1: lC5},
+		{Col: "time", Op: ">=", L1: lC2o},
+		{Col: "time", Op: ">=", L1: lR1}, {Col: "time", Op: "<", L1: lR2},
 		{Col: "time", Op: ">=", L1: nN3}, {Col: "time", Op: "<=", L1: nP5},
 		{Col: "time", Op: "BETWEEN", L1: lC1, L2: lC3},
 		{Col: "uptime", Op: ">=", L1: lC2}, {Col: "event_time", Op: "<", L1: lC3},
 		hostA,
 	}
 	if full {
-		a = append(a, &atom{Col: "time", Op: "<", L1: lC4}, &atom{Col: "time", Op: "=", L1: lC2}, &atom{Col: "time", Op: "<", L1: nP1},
-			&atom{Col: "time", Op: ">=", L1: lC2o}, vGt3)
+		a = append(a, &atom{Col: "time", Op: ">", L1: lC2m}, &atom{Col: "time", Op: "<", L1: lC4}, &atom{Col: "time", Op: "=", L1: lC2},
+			&atom{Col: "time", Op: "<", L1: nP1}, vGt3)
 	}
 	return a
 }
@@ -1095,7 +1099,6 @@ func main() {
 	}
 	if full {
 		add(tmplIndex("plain"), e2new, allLayouts) // depth 2 over alphabet2
-		add(tmplIndex("in-subquery"), e2new, nil)
 		add(tmplIndex("join"), e2new, nil)
 	} else {
 		add(tmplIndex("plain"), e2new, []int{0})
@@ -1226,7 +1229,6 @@ func main() {
 		return minimal[i].witness < minimal[j].witness
 	})
 	w0 := workers[0]
-	w0 := workers[0]
 	// a single time atom reached from an untagged difference (aggregate, group-by, left-join rows) takes its
 	// witnesses from the plain template's own lost rows
 	var expanded []job
@@ -1300,7 +1302,7 @@ func main() {
 	run.Coverage["layouts"] = []string{"cpu: hour directories", "mem: compacted day files", "disk: day files + one un-compacted hour directory + hour directories for now-relative days"}
 	run.Coverage["store_dirs"] = listing
 	run.Coverage["alphabet_sizes"] = map[string]int{"depth0_atoms": len(e0), "depth1_atoms": len(a1), "depth1_new_exprs": len(e1new), "depth2_atoms": len(a2), "depth2_new_exprs": len(e2new)}
-	run.Coverage["rule"] = "cases = templates x layouts x WHERE expressions; WHERE = every atom of the depth-0 alphabet (5 comparison ops x literals {date-only, second precision, Z, +02:00, run-relative, NOW()/CURRENT_TIMESTAMP +- INTERVAL} on time, BETWEEN pairs, the same on string columns uptime/event_time, host/v atoms), plus NOT x / (x AND y) / (x OR y) closed once over alphabet1 for every template and twice (depth 2, parenthesised) over alphabet2 for the plain template (thorough: also in-subquery and join). A case is non-trivial when the enabled pruner changes the SQL sent to DuckDB (only those are executed through both HTTP handlers; byte-identical SQL on a static store is equal by construction); distinct_nontrivial = distinct pruned path sets."
+	run.Coverage["rule"] = "cases = templates x layouts x WHERE expressions; WHERE = every atom of the depth-0 alphabet (5 comparison ops x literals {date-only, second precision, Z, +02:00, run-relative, NOW()/CURRENT_TIMESTAMP +- INTERVAL} on time, BETWEEN pairs, the same on string columns uptime/event_time, host/v atoms), plus NOT x / (x AND y) / (x OR y) closed once over alphabet1 for every template and twice (depth 2, parenthesised) over alphabet2 for the plain template (thorough: all three layouts, and the join template). A case is non-trivial when the enabled pruner changes the SQL sent to DuckDB (only those are executed through both HTTP handlers; byte-identical SQL on a static store is equal by construction); distinct_nontrivial = distinct pruned path sets."
 	run.Coverage["samples"] = samples.List()
 	run.Assume("LocalBackend only (S3/Azure path filtering is not exercised)")
 	run.Assume("session time zone UTC (DuckDB and Go); rows are >= 22 h away from every NOW()-relative boundary and from the pruner's implicit now+1d end")
